@@ -119,3 +119,55 @@ func TestDeadlockDetected(t *testing.T) {
 		t.Fatalf("deadlock not detected")
 	}
 }
+
+// A task starts goroutines (Spawn/Enter/Exit), each writes its own slot, the
+// parent joins them with a WaitGroup bracketed as a blocking operation.
+func runSpawn(seed uint64, mode int) (uint64, int, int) {
+	tape := NewTape(seed)
+	s := NewSched(tape, Config{Mode: mode, Latency: LatUniform})
+	before := RaceErrors()
+	sum := 0
+	fn := func(t *Task) {
+		out := make([]int, 3)
+		var wg sync.WaitGroup
+		for i := 0; i < 3; i++ {
+			wg.Add(1)
+			h := s.Spawn()
+			go func(i int) {
+				s.Enter(h)
+				defer func() { s.Exit(h, recover()) }()
+				defer wg.Done()
+				s.Yield(KindIO, "child", true)
+				out[i] = i + 1
+			}(i)
+		}
+		s.BlockBegin("wait")
+		wg.Wait()
+		s.BlockEnd()
+		for _, v := range out {
+			sum += v
+		}
+	}
+	if !s.Run([]func(*Task){fn}) {
+		panic("stalled")
+	}
+	return s.Hash, RaceErrors() - before, sum
+}
+
+func TestSpawn(t *testing.T) {
+	if !RaceBuild {
+		t.Skip("needs -race")
+	}
+	for mode := 0; mode < NumModes; mode++ {
+		for seed := uint64(1); seed <= 20; seed++ {
+			h1, r1, x1 := runSpawn(seed, mode)
+			h2, r2, x2 := runSpawn(seed, mode)
+			if h1 != h2 || x1 != 6 || x2 != 6 {
+				t.Fatalf("nondeterministic spawn run mode %d seed %d: %x %x sums %d %d", mode, seed, h1, h2, x1, x2)
+			}
+			if r1 != 0 || r2 != 0 {
+				t.Fatalf("false race report in spawn run mode %d seed %d", mode, seed)
+			}
+		}
+	}
+}
